@@ -16,6 +16,7 @@ FAMS_Q = {
     "val": ("val", {}),
     "prov": ("prov", {}),
     "provrel": ("provrel", {}),
+    "consten": ("consten", {}),
     "bad": ("bad", {}),
     "xmod": ("xmod", {}),
     "xmod_l": ("xmod", {"small": False}),
